@@ -100,6 +100,13 @@ def check_one(chk, drv, cfg):
     vals = [r[1] if r[0] == 'ok' else None for r in res.results]
     # ---- constructor
     ctor = None
+    if not res.ok:
+        # some ranks may have left the constructor with an exception while the others went on (and then wait for them)
+        refused = sorted({kind_of(v['ctor']) for v in vals if v is not None and v.get('ctor') != 'ok'})
+        if refused and cfg['_progress']:
+            chk.fail('C03:constructor-rank-dependent', 'the constructor raised (%s) on ranks %s while ranks %s went on to transpose' % (
+                ', '.join(refused), [r for r, v in enumerate(vals) if v is not None and v.get('ctor') != 'ok'][:4], sorted(cfg['_progress'])[:4]), case)
+            return
     if res.ok:
         ctors = [v['ctor'] for v in vals]
         kinds = {('ok' if c == 'ok' else kind_of(c)) for c in ctors}
@@ -199,6 +206,12 @@ def gen(rng, it, quick):
         nprocs = [nprocs[i] for i in perm]
     world = p0 * p1
     shape = lu.rand_shape(rng, nd, [p0, p1], hi=6)
+    if rng.random() < 0.2:
+        # fewer points than processes along one to three dimensions: some ranks own empty blocks in some or all layouts
+        # (findings F16a/F16b: constructor IndexError on such a rank only; rank-dependent early exit of transpose)
+        shape = list(shape)
+        for _ in range(rng.choice([1, 2, 2, 3])):
+            shape[rng.randrange(nd)] = rng.choice([1, 1, 2])
     names = [n for g in groups for n in g]
     steps = [(rng.choice(names), rng.random() < 0.5) for _ in range(rng.randint(2, 6))]
     return {'groups': groups, 'nprocs': nprocs, 'ext': shape, 'start': rng.choice(names), 'steps': steps, 'world': world,
@@ -209,6 +222,13 @@ def gen(rng, it, quick):
 CORPUS = [{'groups': [{'A': [0, 1]}, {'B': [1, 0]}], 'nprocs': [[2, 1], [2, 1]], 'ext': [2, 2], 'start': 'A', 'steps': [('B', False)], 'world': 2, 'dtype': 'int64'},
           {'groups': [{'A': [0, 1, 2]}, {'B': [1, 0, 2]}], 'nprocs': [[3, 2], [3, 2]], 'ext': [6, 6, 4], 'start': 'A', 'steps': [('B', False)], 'world': 6, 'dtype': 'int64'},
           {'groups': [{'A': [0, 1, 2]}, {'B': [1, 0, 2]}], 'nprocs': [[3, 2], [2, 3]], 'ext': [6, 6, 4], 'start': 'A', 'steps': [('B', True), ('A', False)], 'world': 6, 'dtype': 'float64'}]
+
+
+# corpus for F16a / F16b (repaired): the driver grouping over-decomposed on both process axes
+CORPUS += [{'groups': DRIVER_GROUPS, 'nprocs': [[2, 2], [2], [2]], 'ext': [1, 2, 1], 'start': 'v_parallel_2d', 'world': 4, 'dtype': 'int64',
+            'steps': [('v_parallel_1d', False), ('poloidal', True), ('mode_solve', False), ('v_parallel_2d', True)]},
+           {'groups': DRIVER_GROUPS, 'nprocs': [[2, 3], [2], [3]], 'ext': [3, 2, 2], 'start': 'v_parallel_2d', 'world': 6, 'dtype': 'float64',
+            'steps': [('poloidal', False), ('poloidal', True), ('v_parallel_1d', True), ('v_parallel_2d', True)]}]
 
 
 def run(chk):
